@@ -38,6 +38,14 @@ Section C20.
   Proof. exact (multiple_order_indep table accepts answer). Qed.
   Theorem C20_one_entry_per_distinct : forall l, NoDup (dedup l) /\ (forall d, In d (dedup l) <-> In d l).
   Proof. exact (fun l => conj (dedup_nodup l) (dedup_in l)). Qed.
+  (* a failing resolve_multiple reports the error of the FIRST failure in completion order, every
+     DID completed before it having resolved *)
+  Theorem C20_multiple_error_is_first_failure : forall order e,
+    resolve_multiple table accepts answer order = inr e ->
+    exists pre d post, order = pre ++ d :: post
+      /\ (forall x, In x pre -> exists doc, fst (resolve table accepts answer x) = ROk doc)
+      /\ fst (resolve table accepts answer d) = RErr e.
+  Proof. exact (multiple_error_is_first_failure table accepts answer). Qed.
 End C20.
 
 Theorem C20_did_jwk_single_method : forall did key,
@@ -82,3 +90,4 @@ Print Assumptions C20_last_attachment_wins.
 Print Assumptions C20_never_attached_unsupported.
 Print Assumptions C20_attach_other_method_irrelevant.
 Print Assumptions C20_attach_same_method_replaces.
+Print Assumptions C20_multiple_error_is_first_failure.
